@@ -23,6 +23,11 @@ Inductive case :=
    returned target *)
 | CCmdLookup (cmds : list cdef) (host : str) (tls : bool) (uri : str) (m : N) (globoff : bool)
              (impl : outcome (option (str * str)))
+(* as CLookup, after the harness emptied the Targets of the routes whose ids are in [zeros]
+   (a state no command sequence reaches): exercises the [n == 0 -> return nil] branch of
+   Table.lookup against [lookup_cmd]; correspondence only *)
+| CLookupT (defs : list def) (zeros : list N) (host : str) (tls : bool) (uri : str) (m : N)
+           (globoff : bool) (impl : option N)
 (* sortHostsReverseHostPort(hosts) (through the hook VerifSortHosts) *)
 | CSortHosts (hosts : list str) (impl : list str)
 (* glob.MustCompile(pattern).Match(s) *)
@@ -108,6 +113,14 @@ Definition check_case (c : case) : N :=
       | Panic, Panic => v_disagree_spec_fails
       | _, _ => v_disagree
       end
+  | CLookupT defs zeros host tls uri mn globoff impl =>
+      if negb (lookup_domain defs host uri) then v_disagree else
+      let count (id : N) : N := if existsb (N.eqb id) zeros then 0 else id + 1 in
+      let t := map (fun e : str * list route =>
+                      (fst e, map (fun r : route => (fst r, count (snd r))) (snd e))) (new_table defs) in
+      let model := match lookup_cmd t host tls uri (matcher_of mn) globoff with
+                   | Some (_, _, n) => Some (n - 1) | None => None end in
+      verdict (opt_eqb N.eqb impl model) true None (negb (is_nil zeros))
   | CSortHosts hosts impl =>
       if negb (forallb (fun h => subject_domain h && match h with 91 :: _ => false | _ => true end) hosts)
       then v_disagree else
